@@ -1,5 +1,6 @@
 import RegexVerif.Sexp
 import RegexVerif.Model.Scan
+import RegexVerif.Model.Compat
 import RegexVerif.Driver.C07
 
 namespace RegexVerif.Driver
@@ -17,7 +18,7 @@ def attEntry? : Sexp → Option (Option (Nat × Nat))
     matches of a `\G`-free left-to-right pattern. ↦ `(ok (k K compatAll findAll stdAll)…)` where the
     first two run the regexp2 loops over the trivially accelerated scan (every position is a
     candidate) and the third runs the standard library's loop over "leftmost match at or after pos". -/
-def handleC06 (args : List Sexp) : String :=
+def handleC06Loops (args : List Sexp) : String :=
   let get (key : String) : Option Sexp := (lookup key args).bind (·.head?)
   match (get "n").bind nat?, (get "ks").bind ints?, (get "row").bind list? with
   | some n, some ks, some row =>
@@ -31,5 +32,159 @@ def handleC06 (args : List Sexp) : String :=
         spansSexp (stdAll (findFromOf attempt n) n k)]
       toString (Sexp.list (.atom "ok" :: perK))
   | _, _, _ => "(bad-op)"
+
+/-! ### sub-head `methods`: the adapter model of `Model/Compat.lean`, all 21 methods -/
+
+namespace C06M
+open RegexVerif.Compat
+
+def optPair? : Sexp → Option (Option (Nat × Nat))
+  | .atom "x" => some none
+  | .list [i, l] =>
+    match i.nat?, l.nat? with
+    | some i, some l => some (some (i, l))
+    | _, _ => none
+  | _ => none
+
+/-- `(index len (cap…))`, a cap being `x` or `(index len)` -/
+def rmatch? : Sexp → Option RMatch
+  | .list [i, l, .list caps] =>
+    match i.nat?, l.nat?, caps.mapM optPair? with
+    | some i, some l, some caps => some ⟨i, l, caps⟩
+    | _, _, _ => none
+  | _ => none
+
+/-- `(rune byte…)` -/
+def seg? : Sexp → Option (Int × List Nat)
+  | .list (r :: bs) =>
+    match r.int?, bs.mapM nat? with
+    | some r, some bs => some (r, bs)
+    | _, _ => none
+  | _ => none
+
+/-- `(rune size)` -/
+def item? : Sexp → Option (Int × Nat)
+  | .list [r, w] =>
+    match r.int?, w.nat? with
+    | some r, some w => some (r, w)
+    | _, _ => none
+  | _ => none
+
+def showRes {α : Type} (f : α → Sexp) : Res α → Sexp
+  | .ok a => f a
+  | .panic => .atom "panic"
+
+def showOpt {α : Type} (f : α → Sexp) : Option α → Sexp
+  | none => .atom "nil"
+  | some a => f a
+
+def showList {α : Type} (f : α → Sexp) (l : List α) : Sexp := .list (l.map f)
+
+def showBytes : List Nat → Sexp := showList ofNat
+def showInts : List Int → Sexp := showList ofInt
+
+end C06M
+
+open C06M RegexVerif.Compat in
+/-- `(c06 methods (rtl B) (err B) (nil B) (segs ((rune byte…)…)) (rfail B) (ritems ((rune size)…))
+    (ms ((index len (cap…))…)) (ns (n…)))` ↦ `(ok v…)`: the 13 methods without limit in the order of
+    `compat.Matcher`'s model, then the 8 find-all methods, each for every `n` of `ns`.  The byte and
+    string methods run on `segs` (`nil` = the `[]byte` argument is the nil slice), the reader methods on
+    the reader `ritems`/`rfail`, all on the same engine answer `ms`/`err`/`rtl`. -/
+def handleC06Methods (args : List Sexp) : String :=
+  let get (key : String) : Option Sexp := (lookup key args).bind (·.head?)
+  match (get "rtl").bind bool?, (get "err").bind bool?, (get "nil").bind bool?,
+        ((get "segs").bind list?).bind (·.mapM seg?), (get "rfail").bind bool?,
+        ((get "ritems").bind list?).bind (·.mapM item?), ((get "ms").bind list?).bind (·.mapM rmatch?),
+        (get "ns").bind ints? with
+  | some rtl, some err, some isNil, some segs, some rfail, some ritems, some ms, some ns =>
+    let a : Ans := ⟨rtl, ms, err⟩
+    let b : Option (List (Int × List Nat)) := if isNil then none else some segs
+    let rd : Reader := ⟨ritems, rfail⟩
+    let bool (x : Bool) : Sexp := ofBool x
+    let single : List Sexp := [
+      showRes bool (Compat.Match a),
+      showRes bool (Compat.MatchString a),
+      showRes bool (Compat.MatchReader a rd),
+      showRes (showOpt showBytes) (Compat.Find a b),
+      showRes (showOpt showInts) (Compat.FindIndex a b),
+      showRes showBytes (Compat.FindString a segs),
+      showRes (showOpt showInts) (Compat.FindStringIndex a segs),
+      showRes (showOpt showInts) (Compat.FindReaderIndex a rd),
+      showRes (showOpt (showList (showOpt showBytes))) (Compat.FindSubmatch a b),
+      showRes (showOpt showInts) (Compat.FindSubmatchIndex a b),
+      showRes (showOpt (showList showBytes)) (Compat.FindStringSubmatch a segs),
+      showRes (showOpt showInts) (Compat.FindStringSubmatchIndex a segs),
+      showRes (showOpt showInts) (Compat.FindReaderSubmatchIndex a rd)]
+    let perN (n : Int) : List Sexp := [
+      showRes (showOpt (showList (showOpt showBytes))) (Compat.FindAll a b n),
+      showRes (showOpt (showList showInts)) (Compat.FindAllIndex a b n),
+      showRes (showOpt (showList showBytes)) (Compat.FindAllString a segs n),
+      showRes (showOpt (showList showInts)) (Compat.FindAllStringIndex a segs n),
+      showRes (showOpt (showList (showList (showOpt showBytes)))) (Compat.FindAllSubmatch a b n),
+      showRes (showOpt (showList showInts)) (Compat.FindAllSubmatchIndex a b n),
+      showRes (showOpt (showList (showList showBytes))) (Compat.FindAllStringSubmatch a segs n),
+      showRes (showOpt (showList showInts)) (Compat.FindAllStringSubmatchIndex a segs n)]
+    toString (Sexp.list (.atom "ok" :: single ++ ns.flatMap perN))
+  | _, _, _, _, _, _, _, _ => "(bad-op)"
+
+open C06M RegexVerif.Compat in
+/-- `(c06 spec (nil B) (segs ((rune byte…)…)) (table (e…)) (ns (n…)))`, `e` = `x` or `(lo hi (cap…))`
+    in byte offsets, one entry per rune boundary 0 … n: the standard library's own "leftmost match at
+    or after this position".  ↦ `(ok v…)`: the specification `Compat.Std` of the 21 methods in the same
+    order as `methods` (the reader methods on a reader over the same text). -/
+def handleC06Spec (args : List Sexp) : String :=
+  let get (key : String) : Option Sexp := (lookup key args).bind (·.head?)
+  let smatch? : Sexp → Option (Option SMatch)
+    | .atom "x" => some none
+    | .list [lo, hi, .list caps] =>
+      match lo.nat?, hi.nat?, caps.mapM optPair? with
+      | some lo, some hi, some caps => some (some ⟨lo, hi, caps⟩)
+      | _, _, _ => none
+    | _ => none
+  match (get "nil").bind bool?, ((get "segs").bind list?).bind (·.mapM seg?),
+        ((get "table").bind list?).bind (·.mapM smatch?), (get "ns").bind ints? with
+  | some isNil, some segs, some table, some ns =>
+    let d := decoded segs
+    -- byte position ↦ rune boundary index
+    let bounds : List Nat := (List.range (d.length + 1)).map (off d)
+    let tab := table.toArray
+    let ff : Nat → Option SMatch := fun pos =>
+      match bounds.idxOf? pos with
+      | some i => (tab[i]?).bind id
+      | none => none
+    let s := bytesOf segs
+    let b : Option (List Nat) := if isNil then none else some s
+    let bool (x : Bool) : Sexp := ofBool x
+    let single : List Sexp := [
+      bool (Std.Match ff), bool (Std.Match ff), bool (Std.Match ff),
+      showOpt showBytes (Std.Find ff b),
+      showOpt showInts (Std.FindIndex ff),
+      showBytes (Std.FindString ff s),
+      showOpt showInts (Std.FindIndex ff),
+      showOpt showInts (Std.FindIndex ff),
+      showOpt (showList (showOpt showBytes)) (Std.FindSubmatch ff b),
+      showOpt showInts (Std.FindSubmatchIndex ff),
+      showOpt (showList showBytes) (Std.FindStringSubmatch ff s),
+      showOpt showInts (Std.FindSubmatchIndex ff),
+      showOpt showInts (Std.FindSubmatchIndex ff)]
+    let perN (n : Int) : List Sexp := [
+      showOpt (showList (showOpt showBytes)) (Std.FindAll ff d b n),
+      showOpt (showList showInts) (Std.FindAllIndex ff d n),
+      showOpt (showList showBytes) (Std.FindAllString ff d s n),
+      showOpt (showList showInts) (Std.FindAllIndex ff d n),
+      showOpt (showList (showList (showOpt showBytes))) (Std.FindAllSubmatch ff d b n),
+      showOpt (showList showInts) (Std.FindAllSubmatchIndex ff d n),
+      showOpt (showList (showList showBytes)) (Std.FindAllStringSubmatch ff d s n),
+      showOpt (showList showInts) (Std.FindAllSubmatchIndex ff d n)]
+    toString (Sexp.list (.atom "ok" :: single ++ ns.flatMap perN))
+  | _, _, _, _ => "(bad-op)"
+
+/-- dispatch on the sub-head: `(c06 methods …)` or the find-all loops request `(c06 (n N) …)` -/
+def handleC06 (args : List Sexp) : String :=
+  match args with
+  | .atom "methods" :: rest => handleC06Methods rest
+  | .atom "spec" :: rest => handleC06Spec rest
+  | _ => handleC06Loops args
 
 end RegexVerif.Driver
